@@ -49,6 +49,7 @@ def apply(ctx, W):
                 &&& o.5 == has_ident(a, "packed"@, n)
                 &&& opt_string_view(o.7) == spec_doc(a)
             })""", ("C17", "C03"), "attrs-flags-doc"),
+            ("res is Err ==> attrs_bad(definition.attributes.0@)", ("C03",), "no-spurious-attribute-rejection"),
         ])
     rules.for_to_index_loop(ctx, fw, u1, l_attrs, seq="definition.attributes.0", ivar="i_a")
     rules.index_loop_spec(ctx, fw, u1, l_attrs, tags=("C02", "C03", "C15", "C17"), invariants=[
@@ -60,6 +61,12 @@ def apply(ctx, W):
         ("""defaultable == has_ident(definition.attributes.0@, "defaultable"@, i_a as int)""", ("C17",)),
         ("""packed == has_ident(definition.attributes.0@, "packed"@, i_a as int)""", ("C17", "C03")),
     ])
+    ghost(ctx, fw, u1, body_start(l_attrs), """proof {
+                let a = definition.attributes.0@; let k = i_a - 1;
+                if is_int_attr(a[k], "size"@) && a[k]->Function_1@[0]->IntLiteral_0 < 0 { assert(neg_attr(a, "size"@)); }
+                if is_int_attr(a[k], "singleton"@) && a[k]->Function_1@[0]->IntLiteral_0 < 0 { assert(neg_attr(a, "singleton"@)); }
+                if is_int_attr(a[k], "align"@) && a[k]->Function_1@[0]->IntLiteral_0 < 0 { assert(neg_attr(a, "align"@)); }
+            }""")
     ghost(ctx, fw, u1, body_start(l_attrs), 'proof { reveal_strlit("size"); reveal_strlit("singleton"); reveal_strlit("align"); reveal_strlit("copyable"); reveal_strlit("cloneable"); reveal_strlit("defaultable"); reveal_strlit("packed"); }')
 
     # ------------------------------------------------------------------ S2 fields
@@ -80,6 +87,7 @@ def apply(ctx, W):
                     && slots_ok(&semantic.type_registry, module_scope(module), fns, fns.len() as int, out.take(slot_end(fns, fns.len() as int)->0 as int))
                     && forall|s: int| slot_end(fns, fns.len() as int)->0 <= s < out.len() ==> is_placeholder(#[trigger] out[s], s as nat)
             })""", ("C04",), "fields-vftable-slots"),
+            ("res is Err ==> fields_bad(definition.statements@)", ("C03",), "no-spurious-field-rejection"),
         ])
     rules.let_type(fw, top_let("vftable_functions"), "Option<Vec<Function>>")
     rules.for_to_index_loop(ctx, fw, u2, l_stmts, seq="definition.statements", ivar="i_s")
@@ -100,13 +108,22 @@ def apply(ctx, W):
     rules.for_to_index_loop(ctx, fw, u2, l_fattr, seq="attributes.0", ivar="i_b")
     rules.index_loop_spec(ctx, fw, u2, l_fattr, tags=("C01", "C03"), invariants=[
         ("reg_wf(&semantic.type_registry)", ("C01",)),
+        ("0 < i_s <= definition.statements@.len() && *attributes == definition.statements@[i_s - 1].attributes", ("C03",)),
         ("""attr_usize(attributes.0@, "address"@, i_b as int, address)""", ("C01", "C03", "C20")),
         ("""is_base == has_ident(attributes.0@, "base"@, i_b as int)""", ("C06", "C07")),
     ])
+    ghost(ctx, fw, u2, body_start(l_fattr), """proof {
+                        let a = attributes.0@; let k = i_b - 1;
+                        if is_int_attr(a[k], "address"@) && a[k]->Function_1@[0]->IntLiteral_0 < 0 {
+                            assert(neg_attr(a, "address"@));
+                            assert(field_stmt_bad(definition.statements@[i_s - 1]));
+                        }
+                    }""")
     ghost(ctx, fw, u2, body_start(l_fattr), 'proof { reveal_strlit("address"); reveal_strlit("base"); }')
     rules.for_to_index_loop(ctx, fw, u2, l_vattr, seq="attributes.0", ivar="i_c")
     rules.index_loop_spec(ctx, fw, u2, l_vattr, tags=("C04",), invariants=[
         ("reg_wf(&semantic.type_registry)", ("C01",)),
+        ("0 < i_s <= definition.statements@.len() && definition.statements@[i_s - 1].field is Vftable", ("C03",)),
         ("""attr_usize(attributes.0@, "size"@, i_c as int, size)""", ("C04",)),
     ])
     ghost(ctx, fw, u2, body_start(l_vattr), 'proof { reveal_strlit("size"); }')
@@ -131,6 +148,7 @@ def apply(ctx, W):
         types=["Vec<Function>", "HashSet<String>"], kind="try", tags=("C07", "C12", "C17"), ensures=[
             ("res is Ok ==> base_functions_ok(&semantic.type_registry, regions@, vftable_names(*vftable), res->Ok_0.0@)", ("C07", "C17"), "base-functions"),
             ("res is Ok ==> res->Ok_0.1@ =~= vftable_names(*vftable).union(names_set(res->Ok_0.0@))", ("C07",), "used-names"),
+            ("res is Err ==> has_base_region(regions@)", ("C03",), "base-functions-error-only-with-bases"),
         ])
     # used names start with the type's own vftable function names
     un = top_let("associated_functions_used_names")
@@ -163,6 +181,8 @@ def apply(ctx, W):
     ] + base_inv)
     ghost(ctx, fw, u4a, body_start(l_bases), """let ghost bases0 = bases_of(regions@, i_b - 1); let ghost srcs0 = srcs;
         proof {
+            assert(regions@[i_b - 1].is_base);
+            assert(has_base_region(regions@));
             assert(bases_of(regions@, i_b as int) == bases0.push(*base_region));
             lemma_sources_prefix(&semantic.type_registry, bases0.push(*base_region), bases0, i_n - 1);
         }""")
@@ -220,6 +240,7 @@ def apply(ctx, W):
                     Some(b) => forall|j: int, k: int| 0 <= j < k < b.functions@.len() ==> (#[trigger] b.functions@[j]).name.0 != (#[trigger] b.functions@[k]).name.0,
                     None => true }""", ("C05",), "impl-no-duplicate-names"),
             ("res is Ok ==> res->Ok_0.0@.len() >= associated_functions@.len() && res->Ok_0.0@.take(associated_functions@.len() as int) == associated_functions@", ("C07",), "impl-keeps-base-functions"),
+            ("res is Err ==> impl_block_of(module, *resolvee_path) is Some", ("C03",), "impl-functions-error-only-with-impl-block"),
         ])
     ghost(ctx, fw, u4b, stmt_with_loop(l_impl)["span"][0], "let ghost base0 = associated_functions@;")
     rules.for_to_index_loop(ctx, fw, u4b, l_impl, seq="type_impl.functions", ivar="i_m")
@@ -252,9 +273,11 @@ def apply(ctx, W):
         "defaultable: bool, regions: Vec<Region>, semantic: &SemanticState, resolvee_path: &ItemPath",
         "defaultable, regions, &*semantic, resolvee_path", outs=["regions"], types=["Vec<Region>"], kind="try", tags=("C12", "C17"),
         ensures=[("res is Ok ==> res->Ok_0.0 == regions", ("C01", "C02"), "defaultable-check-keeps-regions"),
-                 ("res is Ok && defaultable ==> forall|k: int| 0 <= k < regions@.len() ==> field_defaultable(&semantic.type_registry, (#[trigger] regions@[k]).type_ref)", ("C17",), "defaultable-fields")])
+                 ("res is Ok && defaultable ==> forall|k: int| 0 <= k < regions@.len() ==> field_defaultable(&semantic.type_registry, (#[trigger] regions@[k]).type_ref)", ("C17",), "defaultable-fields"),
+                 ("res is Err ==> defaultable", ("C03",), "defaultable-error-only-if-defaultable")])
     rules.for_to_index_loop(ctx, fw, u5, l_def[0], seq="regions", ivar="i_q")
     rules.index_loop_spec(ctx, fw, u5, l_def[0], tags=("C17",), invariants=[
+        ("defaultable", ("C03",)),
         ("forall|k: int| 0 <= k < i_q ==> field_defaultable(&semantic.type_registry, (#[trigger] regions@[k]).type_ref)", ("C17",)),
     ])
 
@@ -374,6 +397,11 @@ def apply(ctx, W):
                 &&& td.defaultable == has_ident(a, "defaultable"@, n)
                 &&& opt_string_view(td.doc) == spec_doc(a)
             })""", ("C15", "C17"), "build-flags"),
+            # C03 "every other description fails", read backwards through the glue: an error of the whole function has one of
+            # the reasons the segments give (the converse direction used to be proved per segment only)
+            ("""res is Err ==> module_of(old(semantic), *resolvee_path) is None || type_rejection_explained(&old(semantic).type_registry,
+                    module_scope(&module_of(old(semantic), *resolvee_path)->0), *definition, impl_block_of(&module_of(old(semantic), *resolvee_path)->0, *resolvee_path),
+                    &final(semantic).type_registry, *resolvee_path)""", ("C03",), "build-no-spurious-rejection"),
         ])
 
     ghost(ctx, fw, u, stmt_with_loop(l_stmts)["span"][1], "let ghost pend = pending_regions@; let ghost own0 = vftable_functions;")
